@@ -12,4 +12,5 @@ void c02_tac_info(const mjModel* m, const void* varg, int ntask, c02TacInfo* out
   out->ntaxel = m->mesh_vertnum[a[0].mesh_id];
   out->ntask = ntask;
   out->batch = a[0].end_taxel - a[0].start_taxel;
+  out->last_end = a[ntask - 1].end_taxel;
 }
